@@ -208,6 +208,99 @@ func selftestSeeded(ids []string) int {
 	return 0
 }
 
+// selftest variants: specificity. Every kept property-PRESERVING re-implementation
+// under variants/ (written by sub-agents who saw only the property text; different
+// primitives, timing, step counts, memory management) is applied to a scratch copy of
+// /repo and the owning check, run against that copy, must stay silent: exit 0 and no
+// VIOLATION line.
+func selftestVariants(ids []string) int {
+	dir := filepath.Join(verifDir, "variants")
+	ents, err := os.ReadDir(dir)
+	if err != nil {
+		fmt.Fprintln(os.Stderr, err)
+		return 2
+	}
+	want := map[string]bool{}
+	for _, id := range ids {
+		want[id] = true
+	}
+	exe, _ := os.Executable()
+	wall := os.Getenv("VERIF_SEEDED_WALL")
+	if wall == "" {
+		wall = "30"
+	}
+	alarms := 0
+	for _, e := range ents {
+		if !e.IsDir() || (len(want) > 0 && !want[e.Name()]) {
+			continue
+		}
+		var meta struct {
+			Property string `json:"property"`
+		}
+		b, err := os.ReadFile(filepath.Join(dir, e.Name(), "meta.json"))
+		if err != nil || json.Unmarshal(b, &meta) != nil || meta.Property == "" {
+			continue
+		}
+		tmp, err := os.MkdirTemp("", "verif-variant-"+e.Name()+"-")
+		if err != nil {
+			fmt.Fprintln(os.Stderr, err)
+			return 2
+		}
+		err = copyTree("/repo", tmp, func(rel string, d fs.DirEntry) bool {
+			return d.IsDir() && (rel == ".git" || rel == "cmd")
+		})
+		if err == nil {
+			cmd := exec.Command("git", "apply", filepath.Join(dir, e.Name(), "patch.diff"))
+			cmd.Dir = tmp
+			var out []byte
+			out, err = cmd.CombinedOutput()
+			if err != nil {
+				err = fmt.Errorf("git apply: %v: %s", err, out)
+			}
+		}
+		if err != nil {
+			fmt.Printf("%-8s %s: cannot prepare: %v\n", e.Name(), meta.Property, err)
+			os.RemoveAll(tmp)
+			alarms++
+			continue
+		}
+		cmd := exec.Command(exe, meta.Property, "--wall", wall)
+		cmd.Env = append(os.Environ(), "VERIF_REPO="+tmp, "VERIF_DIR="+verifDir, "VERIF_NO_EVIDENCE=1")
+		out, _ := cmd.CombinedOutput()
+		os.RemoveAll(tmp)
+		code := cmd.ProcessState.ExitCode()
+		status := "silent"
+		if code != 0 || strings.Contains(string(out), "VIOLATION property=") {
+			status = fmt.Sprintf("ALARM (exit %d) %s", code, firstLine(out, "violation:"))
+			alarms++
+		}
+		fmt.Printf("%-8s %s: %s\n", e.Name(), meta.Property, status)
+	}
+	if fs, _ := filepath.Glob(filepath.Join(verifDir, "replays", "*.json")); len(fs) > 0 && os.Getenv("VERIF_KEEP_REPLAYS") == "" {
+		for _, f := range fs {
+			os.Remove(f)
+		}
+	}
+	if alarms > 0 {
+		fmt.Printf("selftest variants: %d alarm(s) on property-preserving code\n", alarms)
+		return 1
+	}
+	fmt.Println("selftest variants: no alarm on any kept re-implementation")
+	return 0
+}
+
+func firstLine(out []byte, prefix string) string {
+	for _, l := range strings.Split(string(out), "\n") {
+		if strings.HasPrefix(l, prefix) {
+			if len(l) > 200 {
+				l = l[:200]
+			}
+			return l
+		}
+	}
+	return ""
+}
+
 // selftest passthrough: the source rewriter must not change behaviour outside a
 // simulation. A copy of /repo *with* its test files is instrumented and the
 // repository's own test suite is run against it (shims fall through to the
